@@ -8,7 +8,7 @@ use crate::driver::{mix, Check, Ctx, Tier, Violation};
 use crate::gen;
 use crate::lockstep::{Compare, Ended, Event, LockStep, STALL_LIMIT};
 use crate::prng::Rng;
-use crate::sut::{control_word, Image, Setup, Stim};
+use crate::sut::{control_word, Stim};
 use emulator_2a_lib::machine::{Machine, MicroprogramRam, State};
 use serde::{Deserialize, Serialize};
 use serde_json::{json, Value};
